@@ -91,8 +91,24 @@ fn mutate(s: &Synth, rng: &mut Rng) -> (&'static str, Vec<u8>) {
     let blocks = img.len() / BLOCK;
     let version = s.version;
     let pick_record = |rng: &mut Rng| -> Option<(u64, u64, Vec<u8>)> { if s.records.is_empty() { None } else { Some(rng.pick(&s.records).clone()) } };
-    match rng.below(23) {
+    match rng.below(24) {
         0 => ("valid", img),
+        23 => {
+            // an otherwise valid device whose newest journal slot is ACTIVE, well-formed, correctly checksummed and
+            // carries the last possible generation: the replay could never be cleared (no generation left), so
+            // the open has to be refused - for a bookkeeping (metadata) reason, whatever error code it uses -
+            // before any marker is written over the journaled extents (which here hold live records)
+            let ext: Vec<(u64, u64)> = match pick_record(rng) {
+                Some((sector, nb, _)) => vec![(sector, nb)],
+                None => vec![(rng.range(16, blocks as u64 - 1), 1)],
+            };
+            let j = indep::encode_journal(u64::MAX, &ext, *rng.pick(&[1u32, 2]));
+            let slot = rng.usize_below(2);
+            let off = (1 + slot * 3) * BLOCK;
+            let n = j.len().min(3 * BLOCK);
+            img[off..off + n].copy_from_slice(&j[..n]);
+            ("journal-generation-exhausted", img)
+        }
         22 => {
             // no signature at all; the only content sits in the last third of the file (written sparsely, so the
             // file has a long leading hole): not a FeOx device, must be rejected untouched
@@ -440,7 +456,7 @@ pub fn child(args: &Args) -> ! {
 pub fn run(args: &Args) -> Report {
     let mut report = Report::new(
         "fuzzopen",
-        "device images synthesised by the independent codec (v1/v2/v3, 17-128 blocks, records of 1-3 blocks, complete retirement extents, journal absent/clear/active) and mutated by 22 mutators (a third of the files written sparsely): random bytes; bit flips anywhere / biased to metadata, journal and block heads; block swap/duplicate/zero; size changes (<=reserved area, non-multiple, truncated); structure-aware forgeries with recomputed tokens and checksums (value_len 0/2^32/2^63/MAX/beyond device, key_len 0/4066+/65535, records swallowing neighbours, marker remaining 0/huge/overflowing/state bytes, journal extents below block 16/beyond device/overlapping/1025 entries/generation MAX/unknown version, journal header fields that lie about entry count (1025..2^32-1), state or generation with the checksum pair left consistent or recomputed, metadata version 0/4, wrong device size, generation MAX, wrong block size); bad or zeroed signatures; zeroed extent tails. Each image is opened in a child under catch_unwind + panic hook with a probe workload on stores that open; aborts and hangs are caught by the parent. distinct non-trivial = (mutator, version, outcome, size class) cells; non-trivial = everything except untouched valid images",
+        "device images synthesised by the independent codec (v1/v2/v3, 17-128 blocks, records of 1-3 blocks, complete retirement extents, journal absent/clear/active) and mutated by 23 mutators (a third of the files written sparsely): random bytes; bit flips anywhere / biased to metadata, journal and block heads; block swap/duplicate/zero; size changes (<=reserved area, non-multiple, truncated); structure-aware forgeries with recomputed tokens and checksums (value_len 0/2^32/2^63/MAX/beyond device, key_len 0/4066+/65535, records swallowing neighbours, marker remaining 0/huge/overflowing/state bytes, journal extents below block 16/beyond device/overlapping/1025 entries/generation MAX/unknown version, an otherwise valid device whose winning journal slot is active with generation MAX over a live record (a refusal with ANY error code must leave the file untouched), journal header fields that lie about entry count (1025..2^32-1), state or generation with the checksum pair left consistent or recomputed, metadata version 0/4, wrong device size, generation MAX, wrong block size); bad or zeroed signatures; zeroed extent tails. Each image is opened in a child under catch_unwind + panic hook with a probe workload on stores that open; aborts and hangs are caught by the parent. distinct non-trivial = (mutator, version, outcome, size class) cells; non-trivial = everything except untouched valid images",
     );
     let shard = args.num("shard", 0);
     let shards = args.num("shards", 1).max(1);
@@ -536,7 +552,9 @@ pub fn run(args: &Args) -> Report {
                             }
                         }
                         let unchanged = v["unchanged"].as_bool().unwrap_or(true);
-                        if (result == "Err(InvalidDevice)" || result == "Err(InvalidMetadata)") && !unchanged {
+                        // "journal-generation-exhausted": the only defect of the image is in its bookkeeping, so a refusal
+                        // is a refusal for a metadata reason whatever error code it carries
+                        if (result == "Err(InvalidDevice)" || result == "Err(InvalidMetadata)" || (mutator == "journal-generation-exhausted" && result.starts_with("Err("))) && !unchanged {
                             local.violation(format!("fuzz:modified-on-reject:{mutator}"), format!("image {i} ({mutator}): open failed with {result} but the file bytes changed"), replay.clone());
                         } else if result.starts_with("Err(Invalid") {
                             local.count("byte_identity_checks", 1);
